@@ -47,6 +47,19 @@ def gen_cases(tier, seed):
         cases.append({"H": a[0], "W": b[0], "k": [a[1], b[1]], "s": [a[2], b[2]], "p": [a[3], b[3]], "d": [a[4], b[4]],
                       "N": 1 + n % 2, "C": 1 + (n // 2) % 2, "pad_value": [0, -1.5][n % 2], "form": ["tuple", "int", "mixed"][n % 3],
                       "seed": int(rng.integers(2 ** 31))})
+    # coincidences of extents (the column matrix is square: N*L == C*kH*kW; as many windows as kernel cells; N == C): a swapped axis or a layout
+    # guessed from the shape goes unnoticed everywhere else
+    want_eq, tries = (80 if tier == "quick" else 1500), 0
+    while want_eq and tries < 200000:
+        tries += 1
+        a, b = g[int(rng.integers(len(g)))], g[int(rng.integers(len(g)))]
+        N_, C_ = int(rng.integers(1, 4)), int(rng.integers(1, 4))
+        lH_ = (a[0] + 2 * a[3] - a[4] * (a[1] - 1) - 1) // a[2] + 1
+        lW_ = (b[0] + 2 * b[3] - b[4] * (b[1] - 1) - 1) // b[2] + 1
+        if N_ * lH_ * lW_ == C_ * a[1] * b[1] and a[1] * b[1] > 1:
+            cases.append({"H": a[0], "W": b[0], "k": [a[1], b[1]], "s": [a[2], b[2]], "p": [a[3], b[3]], "d": [a[4], b[4]], "N": N_, "C": C_,
+                          "pad_value": [0, -1.5][want_eq % 2], "form": "tuple", "seed": int(rng.integers(2 ** 31)), "size_class": "square-column-matrix"})
+            want_eq -= 1
     gbig = axis_geos(12, 3, 3, 2, 2)
     for n in range(100 if tier == "quick" else 3000):
         a, b = gbig[int(rng.integers(len(gbig)))], gbig[int(rng.integers(len(gbig)))]
